@@ -591,7 +591,30 @@ def check_geonet(rec, case):
             _close(c, "inarea_weighted_connectivity/definition" + tag, net.inarea_weighted_connectivity(), inawc, wtol(inawc, kin))
             _close(c, "outarea_weighted_connectivity/definition" + tag, net.outarea_weighted_connectivity(), outawc, wtol(outawc, kout))
             _close(c, "area_weighted_connectivity/definition" + tag, net.area_weighted_connectivity(), awc, tawc)
+        # a weight type requested after weights were assigned by hand installs that type's weights again - also when it is
+        # the type the network was built with or had last
+        for nwt, exp, tl in (("surface", cosl, 6 * U), ("irrigation", cosl ** 2, 12 * U), (None, np.ones(N), 0.0),
+                             ("surface", cosl, 6 * U)):
+            net.set_node_weight_type(nwt)
+            net.node_weights = np.linspace(0.5, 2.5, N)
+            net.set_node_weight_type(nwt)
+            _close(c, "node_weights/type-reinstalled-after-assignment", np.asarray(net.node_weights, dtype=float), exp, tl,
+                   "type %r" % (nwt,))
         net.set_node_weight_type("surface")
+    # two grids over the same points in another order (same size, same bounding box) in one process: each reports its own
+    # distances (the memo of one object must not answer for the other)
+    if N >= 3:
+        with quiet():
+            order = np.arange(N)[::-1].copy()
+            order[:2] = order[:2][::-1]
+            g1 = GeoGrid(np.arange(3), lat.copy(), lon.copy(), silence_level=3)
+            g2 = GeoGrid(np.arange(3), lat[order].copy(), lon[order].copy(), silence_level=3)
+            d1 = np.asarray(g1.angular_distance(), dtype=float)
+            d2 = np.asarray(g2.angular_distance(), dtype=float)
+        O2 = O[np.ix_(order, order)]
+        c.ev("GeoGrid.angular_distance/second-grid-same-points-other-order",
+             d2.shape == O2.shape and bool(np.all(np.abs(d2 - O2) <= ang_allowance(O2) + 1e-6)),
+             lambda: "max deviation %r (first grid: %r)" % (float(np.abs(d2 - O2).max()), float(np.abs(d1 - O).max())))
 
         def cwd(M, k):
             num = (M * cosl[None, :] * O).sum(axis=1)
